@@ -79,6 +79,10 @@ def run(ck, rng):
         ck.count("variant:" + name)
         ck.count("hostile" if hostile else "clean")
         parts = impl[i].split("|")
+        if len(parts) < 4 + nb or any(pp.split(" ")[0] in ("panic", "crash", "timeout") for pp in parts):
+            ck.violation({"property": "C09", "kind": "abnormal", "class": "abnormal", "case": cases[i], "got": impl[i][-300:],
+                          "why": "a call did not return normally"})
+            continue
         before = parse_snap(parts[0].split(" ")[2])
         dres = parts[1 + nb].split(" ")
         if name.startswith("out"):
